@@ -184,7 +184,7 @@ func (rm *RegistrationManager) VerifDumpFull() string {
 	var lines []string
 	for ph, m := range r.decoys {
 		for id, d := range m {
-			lines = append(lines, fmt.Sprintf("D %s %x valid=%v n=%d covert=%s", ph, id[:4], d.Valid, d.regCount, d.Covert))
+			lines = append(lines, fmt.Sprintf("D %s %x valid=%v n=%d covert=%s params=%v", ph, id[:4], d.Valid, d.regCount, d.Covert, d.transportParams))
 		}
 	}
 	for _, t := range r.decoysTimeouts {
